@@ -29,8 +29,9 @@ PROPS = {
         'notes': ['"eventually delivers" is proved as enabledness (a fired, un-superseded instance can always hand over its trigger); that the Go scheduler runs it is observed, not proved'],
     },
     'C17': {
-        'engines': [{'name': 'filter'}],
-        'trusted_base': ['theorems in coq/props/C17.v about coq/theories/Filter.v (proofs in FilterFacts.v)'],
+        'engines': [{'name': 'filter'}, {'name': 'world', 'quick_args': ['-n', '70'], 'thorough_args': ['-n', '1200']}],
+        'corr_modules': ['Term'],
+        'trusted_base': ['theorems in coq/props/C17.v about coq/theories/Filter.v (proofs in FilterFacts.v) and about the node model Term.v (NodeFacts.v: the installed term is the term of the node\'s height after every event sequence, split syncs included)'],
         'assumptions': COMMON_ASSUME + ['heights passed to onNewConsensusRound only take effect when increasing (SetHeightAndResetView, proved in C13)', 'reading of the statement: "before it" = before the node starts H (DESIGN.md C17)'],
     },
     'C15': {
